@@ -155,7 +155,7 @@ func gen(t *rapid.T) Case {
 		Principals: rapid.SliceOfN(rapid.SampledFrom([]string{"user_a", "root", "é", "", "ops:touch", "deploy", "a b"}), 0, 8).Draw(t, "principals"),
 		KeyID:      rapid.SampledFrom([]string{`{"prins":["user_a"],"transID":"15537d7b63","reqUser":"user_a","reqIP":"172.17.0.1","reqHost":"localhost","isFirefighter":false,"isHWKey":false,"isHeadless":false,"isNonce":false,"usage":0,"touchPolicy":1,"ver":1}`, "", "free text 日本"}).Draw(t, "keyID"),
 		Validity:   rapid.SampledFrom([]uint64{0, 1, 43200, 1 << 40}).Draw(t, "validity"),
-		Identifier: rapid.SampledFrom([]string{"ssh-user-key", "", "slot é"}).Draw(t, "identifier"),
+		Identifier: rapid.SampledFrom([]string{"ssh-user-key", "ssh-user-key", "", "slot é", "<none>"}).Draw(t, "identifier"), // "<none>": the request has no key-meta sub-message at all
 	}
 	c.ViaConf = rapid.Bool().Draw(t, "viaConf")
 	n := rapid.IntRange(0, 4).Draw(t, "n")
@@ -286,6 +286,9 @@ func oneRound(c Case, cur []Endpoint, round int, g *vh.CAGroup, signer *crypki.S
 	}
 	req := &pb.SSHCertificateSigningRequest{KeyMeta: &pb.KeyMeta{Identifier: c.Identifier}, Principals: append(make([]string, 0, len(c.Principals)+4), c.Principals...), PublicKey: string(ssh.MarshalAuthorizedKey(vh.SSHPub("p256b"))),
 		Validity: c.Validity, KeyId: c.KeyID, Extensions: map[string]string{"permit-pty": "", "x": "y"}, CriticalOptions: map[string]string{"force-command": "true"}}
+	if c.Identifier == "<none>" {
+		req.KeyMeta = nil // an optional sub-message: a request without it is passed on like any other
+	}
 	sent := proto.Clone(req).(*pb.SSHCertificateSigningRequest)
 	var certs []ssh.PublicKey
 	var comments []string
@@ -415,7 +418,7 @@ func behaviours(c Case) []string {
 	return b
 }
 
-const rule = "endpoint lists of length 0..4 over 127.0.0.2..5 sharing one port, served by real gRPC-over-TLS Signing servers; per endpoint: signs 1..3 (one in 30: 12 / 40 / 100) certificates (small ones, rarely one of 64 KiB / 130 KiB) with comment shapes (none, one word, several words, non-ASCII, a key-type look-alike, 4 KB, 70 KB) (one entry in twelve is a plain public key instead of a certificate - also as the only entry of a reply) and reply layouts (an extra empty or '#' line at the end, an empty line in front, CR LF line ends, a line of blanks at the end), RPC error with any status code 1..16 (a third of them with the texts real CAs send: maximum validity exceeded, unknown key identifier, too many principals, rate limit hints), empty key text, unparsable key text, no listener, hangs past the per-try deadline (rare); real crypki signer (NewSigner, or NewSignerWithGensignConf from a configuration map) with real TLS material, retries = 1; 1..3 Sign calls on the same Signer, with endpoints recovering or starting to fail after the first call, at RPC level (status code) and at connection level (an address without listener starts listening; a listening one goes away); a tenth of the cases enter Sign with a cancelled or expired context (deadline failure of every endpoint); request fields generated (0..8 principals, KeyID, validity, identifier, extensions, critical options). Oracle: contacted = the prefix up to and including the first signing endpoint, in order, each once, each receiving a request proto.Equal to the input; result = that endpoint's certificates and comments, same length, CA order (plain keys among the entries may or may not be handed on), never an empty success; no signing endpoint or an empty list => non-nil error, never (nil, nil, nil). Non-trivial: a failing endpoint before a signing one, or all failing."
+const rule = "endpoint lists of length 0..4 over 127.0.0.2..5 sharing one port, served by real gRPC-over-TLS Signing servers; per endpoint: signs 1..3 (one in 30: 12 / 40 / 100) certificates (small ones, rarely one of 64 KiB / 130 KiB) with comment shapes (none, one word, several words, non-ASCII, a key-type look-alike, 4 KB, 70 KB) (one entry in twelve is a plain public key instead of a certificate - also as the only entry of a reply) and reply layouts (an extra empty or '#' line at the end, an empty line in front, CR LF line ends, a line of blanks at the end), RPC error with any status code 1..16 (a third of them with the texts real CAs send: maximum validity exceeded, unknown key identifier, too many principals, rate limit hints), empty key text, unparsable key text, no listener, hangs past the per-try deadline (rare); real crypki signer (NewSigner, or NewSignerWithGensignConf from a configuration map) with real TLS material, retries = 1; 1..3 Sign calls on the same Signer, with endpoints recovering or starting to fail after the first call, at RPC level (status code) and at connection level (an address without listener starts listening; a listening one goes away); a tenth of the cases enter Sign with a cancelled or expired context (deadline failure of every endpoint); request fields generated (0..8 principals, KeyID, validity, identifier - or no key-meta sub-message at all -, extensions, critical options). Oracle: contacted = the prefix up to and including the first signing endpoint, in order, each once, each receiving a request proto.Equal to the input; result = that endpoint's certificates and comments, same length, CA order (plain keys among the entries may or may not be handed on), never an empty success; no signing endpoint or an empty list => non-nil error, never (nil, nil, nil). Non-trivial: a failing endpoint before a signing one, or all failing."
 
 func TestC17Failover(t *testing.T) {
 	vh.Run(t, vh.Spec[Case]{Property: "C17", Name: "TestC17Failover", Rule: rule, Gen: gen, Exec: exec})
